@@ -66,7 +66,9 @@ FKHold(st) == \A t \in DOMAIN st.tabs : \A f \in Idxs(st.tabs[t].fks) : \A i \in
 Refs(st, p) == { x \in (DOMAIN st.tabs) \X (1..4) : x[2] \in Idxs(st.tabs[x[1]].fks) /\ st.tabs[x[1]].fks[x[2]].rt = p }
 
 \* ---------- results ----------
-Res(out, st, cnt) == [out |-> out, st |-> st, cnt |-> cnt]
+\* alt = "err": rejecting the statement (database unchanged) is conforming as well -- used where SQL leaves the
+\* moment of a check open (NO ACTION checked at the end of the statement vs. immediately)
+Res(out, st, cnt) == [out |-> out, st |-> st, cnt |-> cnt, alt |-> ""]
 Fail(st)   == Res("err", st, 0)
 Ok(st, n)  == Res("ok", st, n)
 SetRows(st, t, rows) == [st EXCEPT !.tabs[t].rows = rows]
@@ -145,6 +147,42 @@ DoInsertSelect(st, a) ==
        r == InsertRows(st, a.t, news)
    IN IF r.ok THEN Ok(r.st, Len(news)) ELSE Fail(st)
 
+\* ---------- referential actions of UPDATE on a referenced (parent) table ----------
+\* st2: the state with the parent rows already replaced by rows2; st0: the state before the statement.
+\* A child row whose non-NULL foreign key k equals the OLD referenced key of a selected parent row whose
+\* referenced key changes is "hit": ON UPDATE CASCADE rewrites its foreign-key columns to the new key, SET NULL
+\* nulls them, RESTRICT / NO ACTION make the statement fail.  Left open ("unmodelled"): key hand-overs inside one
+\* statement (another parent row takes over the old key), self-references, and propagation to grandchildren.
+RECURSIVE UpdCascadeGo(_,_,_,_,_,_)
+UpdCascadeGo(s, st0, t, sel, rows2, todo) ==
+   IF todo = {} THEN [out |-> "ok", st |-> s] ELSE
+   LET x  == CHOOSE y \in todo : TRUE
+       T  == st0.tabs[t]
+       C  == s.tabs[x[1]]
+       fk == C.fks[x[2]]
+       oldKey(i) == KeyOf(T, fk.rcols, T.rows[i])
+       newKey(i) == KeyOf(T, fk.rcols, rows2[i])
+       movers(k) == { i \in sel : RowEq(oldKey(i), k) /\ ~RowEq(newKey(i), k) }
+       hit == { c \in Idxs(C.rows) : LET k == KeyOf(C, fk.cols, C.rows[c]) IN ~HasNullKey(k) /\ movers(k) # {} }
+       stillThere(k) == \E p \in Idxs(rows2) : RowEq(KeyOf(T, fk.rcols, rows2[p]), k)
+       fkPos(j) == \E q \in Idxs(fk.cols) : ColIdx(C, fk.cols[q]) = j
+       fkQ(j) == CHOOSE q \in Idxs(fk.cols) : ColIdx(C, fk.cols[q]) = j
+       newChild(c) == LET k == KeyOf(C, fk.cols, C.rows[c]) i == CHOOSE i \in movers(k) : TRUE IN
+                      [j \in Idxs(C.rows[c]) |-> IF ~fkPos(j) THEN C.rows[c][j]
+                                                  ELSE IF fk.onupd = "cascade" THEN newKey(i)[fkQ(j)] ELSE NULL]
+       rows3 == [c \in Idxs(C.rows) |-> IF c \in hit THEN newChild(c) ELSE C.rows[c]]
+       s3 == SetRows(s, x[1], rows3)
+       grand == \E y \in Refs(s, x[1]) : \E q \in Idxs(fk.cols) : \E r \in Idxs(s.tabs[y[1]].fks[y[2]].rcols) :
+                   s.tabs[y[1]].fks[y[2]].rcols[r] = fk.cols[q]
+   IN IF hit = {} THEN UpdCascadeGo(s, st0, t, sel, rows2, todo \ {x})
+      ELSE IF x[1] = t THEN [out |-> "unmodelled", st |-> s]
+      ELSE IF \E c \in hit : stillThere(KeyOf(C, fk.cols, C.rows[c])) THEN [out |-> "unmodelled", st |-> s]
+      ELSE IF fk.onupd \notin {"cascade", "setnull"} THEN [out |-> "err", st |-> s]
+      ELSE IF grand THEN [out |-> "unmodelled", st |-> s]
+      ELSE IF ~TableOk(s3, x[1], C, rows3) THEN [out |-> "err", st |-> s]
+      ELSE UpdCascadeGo(s3, st0, t, sel, rows2, todo \ {x})
+UpdCascade(st2, st0, t, sel, rows2, refs) == UpdCascadeGo(st2, st0, t, sel, rows2, refs)
+
 \* ---------- UPDATE ----------
 Selected(st, t, w) == LET T == st.tabs[t] IN
    { i \in Idxs(T.rows) : w.k = "none" \/ Truth(Ev(w, RowEnv(t, T, T.rows[i]), <<>>, DbOf(st))) }
@@ -167,19 +205,34 @@ DoUpdate(st, a) ==
        orphaned(x) == LET C == st2.tabs[x[1]] fk == C.fks[x[2]] P == st2.tabs[a.t] IN
             { c \in Idxs(C.rows) : LET k == KeyOf(C, fk.cols, C.rows[c]) IN
                  ~HasNullKey(k) /\ ~(\E p \in Idxs(P.rows) : RowEq(KeyOf(P, fk.rcols, P.rows[p]), k)) }
+       casc == UpdCascade(st2, st, a.t, sel, rows2, refs)
+       \* the final state is fine but a row's new key equals the OLD key of another row changed by the same statement
+       \* (SET ID = ID + 1 over consecutive keys): legal under end-of-statement checking, refused under row-by-row checking
+       keySets == (IF T.pk = <<>> THEN {} ELSE {T.pk}) \cup Range(T.uqs)
+                  \cup { IdxKeyCols(st.idx[i]) : i \in { i \in DOMAIN st.idx : st.idx[i].t = a.t /\ st.idx[i].uq } }
+       transient == \E cs \in keySets : \E i, j \in sel : i # j /\ ~HasNullKey(KeyOf(T, cs, rows2[i]))
+                       /\ RowEq(KeyOf(T, cs, rows2[i]), KeyOf(T, cs, T.rows[j])) /\ ~RowEq(KeyOf(T, cs, rows2[j]), KeyOf(T, cs, T.rows[j]))
    IN IF ~RowsWellTyped(T, [k \in Idxs(SetToSeq(sel)) |-> rows2[SetToSeq(sel)[k]]]) THEN Fail(st)
       ELSE IF ~TableOk(st2, a.t, T, rows2) THEN Fail(st)
       ELSE IF \E f \in Idxs(T.fks) : \E i \in sel : ~FkRowOk(st2, T, T.fks[f], rows2[i]) THEN Fail(st)
-      ELSE IF \E x \in refs : x[1] # a.t /\ orphaned(x) # {} /\ st.tabs[x[1]].fks[x[2]].onupd \notin {"cascade", "setnull"} THEN Fail(st)
-      ELSE IF \E x \in refs : x[1] # a.t /\ orphaned(x) # {} THEN Res("unmodelled", st, 0)   \* ON UPDATE CASCADE / SET NULL: outside the model
-      ELSE Ok(st2, Cardinality(sel))
+      ELSE IF casc.out = "unmodelled" THEN Res("unmodelled", st, 0)
+      ELSE IF casc.out = "err" THEN Fail(st)
+      ELSE [Ok(casc.st, Cardinality(sel)) EXCEPT !.alt = IF transient THEN "err" ELSE ""]
 
 \* ---------- DELETE / TRUNCATE ----------
 DoDelete(st, a) ==
    IF a.t \notin DOMAIN st.tabs \/ WhereErr(st, a.t, a.w) THEN Fail(st) ELSE
    LET sel == Selected(st, a.t, a.w)
        r == DeleteRows(st, a.t, sel, 3)
-   IN IF r.ok THEN Ok(r.st, Cardinality(sel)) ELSE Fail(st)
+       T == st.tabs[a.t]
+       \* a RESTRICT / NO ACTION reference to a row being deleted that exists when the statement starts: if the
+       \* referencing row is removed by the same statement the end-of-statement check passes, an immediate one fails
+       immediateHit == \E x \in Refs(st, a.t) :
+                          LET C == st.tabs[x[1]] fk == C.fks[x[2]] IN
+                          /\ fk.ondel \notin {"cascade", "setnull"}
+                          /\ \E c \in Idxs(C.rows) : LET k == KeyOf(C, fk.cols, C.rows[c]) IN
+                                ~HasNullKey(k) /\ \E i \in sel : RowEq(KeyOf(T, fk.rcols, T.rows[i]), k)
+   IN IF r.ok THEN [Ok(r.st, Cardinality(sel)) EXCEPT !.alt = IF immediateHit THEN "err" ELSE ""] ELSE Fail(st)
 
 DoTruncate(st, a) ==
    IF a.t \notin DOMAIN st.tabs THEN Fail(st) ELSE
@@ -216,6 +269,14 @@ DoCreateIndex(st, a) ==
    IF a.uq /\ ~NoDupKeys(T, IdxKeyCols(ix), T.rows) THEN Fail(st)
    ELSE Ok([st EXCEPT !.idx = FnPut(st.idx, a.n, ix)], 0)
 DoDropIndex(st, a) == IF a.n \in DOMAIN st.idx THEN Ok([st EXCEPT !.idx = FnDel(st.idx, a.n)], 0) ELSE Fail(st)
+
+\* ALTER TABLE t ADD CONSTRAINT n FOREIGN KEY ...: accepted iff the existing rows already satisfy it
+DoAddFk(st, a) ==
+   IF a.t \notin DOMAIN st.tabs \/ a.fk.rt \notin DOMAIN st.tabs THEN Fail(st) ELSE
+   LET T == st.tabs[a.t] IN
+   IF (\E j \in Idxs(a.fk.cols) : ~HasCol(T, a.fk.cols[j])) \/ (\E j \in Idxs(a.fk.rcols) : ~HasCol(st.tabs[a.fk.rt], a.fk.rcols[j])) THEN Fail(st) ELSE
+   LET st2 == [st EXCEPT !.tabs[a.t].fks = Append(@, a.fk)] IN
+   IF \A i \in Idxs(T.rows) : FkRowOk(st2, T, a.fk, T.rows[i]) THEN Ok(st2, 0) ELSE Fail(st)
 
 DoCreateView(st, a) ==
    IF a.n \in DOMAIN st.views \/ a.n \in DOMAIN st.tabs THEN Fail(st)
@@ -260,6 +321,7 @@ Apply(st, a) ==
      [] a.a = "ci"       -> DoCreateIndex(st, a)
      [] a.a = "di"       -> DoDropIndex(st, a)
      [] a.a = "analyze"  -> IF a.t = "" \/ a.t \in DOMAIN st.tabs THEN Ok(st, 0) ELSE Fail(st)
+     [] a.a = "addfk"    -> DoAddFk(st, a)
      [] a.a = "cv"       -> DoCreateView(st, a)
      [] a.a = "dv"       -> DoDropView(st, a)
      [] a.a = "begin"    -> DoBegin(st)
